@@ -10,6 +10,36 @@ BASELINE_OFF = ("cd /repo && env -u CNES_PANDORA_VERIF /venv/bin/python -m pytes
 
 # id -> (technique, level text, level note, design ref)
 CLAIMED = {
+    "C03": (
+        "Hypothesis-generated cost volumes vs. plane-by-plane first-strictly-better scan (reference model)",
+        "Exploration: generated cost-volume datasets (tiny shapes and tile-constructed shapes straddling the 100-pixel "
+        "blocks, ties, NaN cells, all-NaN pixels, min/max measures, any invalid_disparity incl. NaN) are run through "
+        "WinnerTakesAll.to_disp and compared exactly with a reference that keeps the first strictly better cost; the "
+        "cost volume, flags, confidence bands and disparity_interval are compared too.",
+        "Trusted: reference in pbt/props/c03.py, numpy comparisons. Costs are finite float32 or NaN (no +-inf).",
+        "DESIGN.md §5 C03",
+    ),
+    "C10": (
+        "Hypothesis-generated disparity datasets vs. loop-per-pixel median / bilateral reference models",
+        "Exploration: generated disparity maps (invalid pixels anywhere, sizes around the 50/100-pixel block boundaries, "
+        "odd filter sizes, sigma pairs) filtered by median, bilateral and median_for_intervals and compared per pixel "
+        "with explicit-window references (median to 1e-6, bilateral to 1e-5 relative), plus mask / invalid-pixel / "
+        "edge-pixel / other-variables-untouched clauses.",
+        "Trusted: references in pbt/props/c10.py. Even-width bilateral windows and regularised interval bands are "
+        "judged on the weak clauses only (counted as unspecified).",
+        "DESIGN.md §5 C10",
+    ),
+    "C14": (
+        "Hypothesis-generated post-cross-check maps vs. validity predicate (flag exchange, finiteness, range, nearest-valid rule)",
+        "Exploration: generated layouts of valid / invalid / occluded / mismatched pixels (incl. maps, rows and "
+        "columns without any valid pixel) are filled by both methods and judged by a predicate: unflagged pixels "
+        "bit-identical, 8->4 / 9->5 exchange (sgm 9->8 next to an occlusion), finite value inside the valid range, "
+        "must-fill when a valid pixel is visible along a principal direction, must-stay-flagged when the map has no "
+        "valid pixel, exact nearest-valid value for the mc-cnn occlusion rule.",
+        "Trusted: predicate in pbt/props/c14.py. Between must-fill and must-stay-flagged only flag/finiteness/range "
+        "clauses are judged.",
+        "DESIGN.md §5 C14",
+    ),
     "C07": (
         "Hypothesis-generated disparity-map pairs vs. per-pixel reference model (three-zone oracle)",
         "Exploration: thousands of generated left/right disparity datasets (masks, NaN/-9999 invalids, fractional and "
